@@ -111,6 +111,7 @@ class VPartial(V):       # functools.partial(func, **kwargs)
 @dataclass(frozen=True)
 class VSuper(V):         # super() inside a method: only super().__new__(cls) (object allocation) is modelled
     pass
+ABSENT = z3.Const('absent_attribute', Obj)      # heap mode: what getattr(x, name, default) finds when x has no such attribute; never stored
 @dataclass(frozen=True)
 class VGhostMap(V):      # a module-level table under contract: lookups identify keys modulo ==/hash (model.eqc)
     name: str
@@ -702,6 +703,15 @@ class Exec:
         if len(args) == 3 and isinstance(args[1], VPy) and isinstance(args[1].o, str):
             ot = self.obj(args[0]); nm = self.uni.const(args[1].o)
             outs = []
+            if self.fields_mode and isinstance(args[0], VObj) and args[1].o not in self.method_names:
+                # heap mode: the attribute is the field the code itself may have stored; "absent" is a distinguished value no store ever writes
+                t = z3.Select(self.field(s, args[1].o), ot)
+                for s2, has in self.fork(s, t != ABSENT):
+                    if has and isinstance(args[2], VPy):
+                        self.assumptions.add('no attribute value is the private sentinel passed as getattr() default')
+                        s2 = s2.assume(t != self.obj(args[2]))
+                    outs.append((s2.eff('getattr', ot, args[1].o), VObj(t) if has else args[2]))
+                return outs
             for s2, has in self.fork(s, M.hasattr_(ot, nm)):
                 if has and isinstance(args[2], VPy):
                     # assumption (listed in the evidence): an attribute value is never the private default/sentinel object itself
@@ -1000,7 +1010,7 @@ class Exec:
         return arr
     def setattr_(self, s, b, name, v):
         if isinstance(b, VObj):
-            return s.hset(('field', name), z3.Store(self.field(s, name), b.t, self.obj(v))).hset(('fieldlast', name), (b.t, v)).eff('setattr', b.t, name)
+            return s.assume(self.obj(v) != ABSENT).hset(('field', name), z3.Store(self.field(s, name), b.t, self.obj(v))).hset(('fieldlast', name), (b.t, v)).eff('setattr', b.t, name)
         if isinstance(b, VPy) and isinstance(b.o, types.ModuleType):
             return s.hset(('global', b.o.__name__, name), v).ev('global_store', b.o.__name__, name, v)
         raise Unsupported(f'attribute assignment on {type(b).__name__}.{name}')
